@@ -115,7 +115,9 @@ Qed.
 Lemma td_chunk_tiles n k : n > 0 -> k >= 1 -> exists l, td_chunk n k = Ok l /\ tiles 0 n l.
 Proof.
   intros Hn Hk. unfold td_chunk. destruct (k <? 1) eqn:E; [apply Nat.ltb_lt in E; lia|].
-  apply td_split_tiles; [lia|]. apply pyceil_pos; lia.
+  assert (Hc : pyceil n k >= 1) by (apply pyceil_pos; lia).
+  replace (pyceil n k =? 0) with false by (symmetry; apply Nat.eqb_neq; lia).
+  apply td_split_tiles; [lia|]. exact Hc.
 Qed.
 
 (* the loop = the closed form: pieces of size ss, the last one ragged *)
@@ -262,6 +264,7 @@ Proof.
     destruct gen.
     - destruct (min n k =? 0) eqn:E; [discriminate|]. apply Nat.eqb_neq in E.
       assert (Hc : pyceil n (min n k) >= 1) by (apply pyceil_pos; lia).
+      try replace (pyceil n (min n k) =? 0) with false in * by (symmetry; apply Nat.eqb_neq; lia).
       pose proof (gen_slices_td_split n (pyceil n (min n k)) Hn Hc) as G.
       destruct (gen_slices n (pyceil n (min n k))) as [a|e]; cbn [rmap rbind pieces_of_call] in *; [|discriminate].
       intro H. injection H as <-.
@@ -270,6 +273,7 @@ Proof.
     - cbn [rbind pieces_of_call]. unfold td_chunk.
       destruct (min n k <? 1) eqn:E; [discriminate|]. apply Nat.ltb_ge in E.
       assert (Hc : pyceil n (min n k) >= 1) by (apply pyceil_pos; lia).
+      try replace (pyceil n (min n k) =? 0) with false in * by (symmetry; apply Nat.eqb_neq; lia).
       destruct (td_split_tiles n (pyceil n (min n k)) Hn Hc) as (l' & Hl' & Ht). rewrite Hl'. cbn [rmap].
       intro H. injection H as <-. rewrite map_bounds_psl, (tiles_clamp_id 0); assumption. }
   destruct cs as [[|c']|], nc as [k|]; try (cbn [rbind]; intro Hx; discriminate Hx); try (apply Hnum).
@@ -298,6 +302,7 @@ Proof.
   { intros k Hk. unfold num_chunks_mode. destruct gen.
     - destruct (min n k =? 0) eqn:E; [apply Nat.eqb_eq in E; lia|].
       assert (Hc : pyceil n (min n k) >= 1) by (apply pyceil_pos; lia).
+      try replace (pyceil n (min n k) =? 0) with false in * by (symmetry; apply Nat.eqb_neq; lia).
       pose proof (gen_slices_td_split n (pyceil n (min n k)) Hn Hc) as G.
       destruct (td_split_tiles n (pyceil n (min n k)) Hn ltac:(lia)) as (l' & Hl' & _). rewrite Hl' in G.
       destruct (gen_slices n (pyceil n (min n k))); cbn [rmap] in G; [|discriminate]. cbn. eauto.
@@ -327,6 +332,7 @@ Proof.
     destruct (min n k =? 0) eqn:E; [apply Nat.eqb_eq in E; lia|].
     destruct (min n k <? 1) eqn:E1; [apply Nat.ltb_lt in E1; lia|].
     assert (Hc : pyceil n (min n k) >= 1) by (apply pyceil_pos; lia).
+      try replace (pyceil n (min n k) =? 0) with false in * by (symmetry; apply Nat.eqb_neq; lia).
     pose proof (gen_slices_td_split n _ Hn Hc) as G.
     destruct (td_split_tiles n _ Hn Hc) as (l' & Hl' & Ht). rewrite Hl' in *.
     destruct (gen_slices n (pyceil n (min n k))); cbn [rmap rbind pieces_of_call] in *; [|discriminate].
@@ -368,12 +374,14 @@ Proof.
   { clear l. intros k l. unfold num_chunks_mode. destruct gen.
     - destruct (min n k =? 0) eqn:E; [discriminate|]. apply Nat.eqb_neq in E.
       assert (Hc : pyceil n (min n k) >= 1) by (apply pyceil_pos; lia).
+      try replace (pyceil n (min n k) =? 0) with false in * by (symmetry; apply Nat.eqb_neq; lia).
       pose proof (gen_slices_td_split n _ Hn Hc) as G. rewrite td_split_closed in G by lia.
       destruct (gen_slices n (pyceil n (min n k))); cbn [rmap rbind pieces_of_call] in *; [|discriminate].
       intro H. injection H as <-. now injection G.
     - cbn [rbind pieces_of_call]. unfold td_chunk.
       destruct (min n k <? 1) eqn:E; [discriminate|]. apply Nat.ltb_ge in E.
       assert (Hc : pyceil n (min n k) >= 1) by (apply pyceil_pos; lia).
+      try replace (pyceil n (min n k) =? 0) with false in * by (symmetry; apply Nat.eqb_neq; lia).
       destruct (td_split_tiles n _ Hn Hc) as (l' & Hl' & Ht).
       rewrite Hl'. cbn [rmap]. intro H. injection H as <-.
       rewrite map_bounds_psl, (tiles_clamp_id 0) by assumption.
